@@ -53,6 +53,10 @@ CLAIMED = {
    "Every non-empty subset of the 3x3 lattice and of the 4x4 lattice (quick: up to 9 points; thorough: all 65 535) as MultiPoints, every distinct permutation of every small subset with up to two duplicated members, 25 structured families of 6..200 points under every rotation and reversal of the order, and every other carrier type (all simple 3x3 polygons, paths, collections and multis with empty members): ConvexHull compared with an independent exact gift-wrapping hull (vertex set, strict convexity, covering, idempotence, order/multiplicity independence, Point/LineString degeneracies); both rotated rectangles checked for right angles, covering, a side on a hull edge and minimality against exact brute force over hull edges; general-position float images for the covering claims.",
    "Trust: checks/c13.go:refHull (int64 gift wrapping) and exact rationals for the rectangle minima. Rectangle comparisons use tolerance 1e-9 x magnitude.",
    "bounded-exhaustive enumeration of point sets and orders on the real code against an independent exact hull", "4/C13"),
+ "C14": ("model_checking",
+   "Every valid geometry of a lattice universe (the full 3x3 operand alphabet incl. all 975 simple polygons, polygons with 1..3 holes on 6x6 under every shell/hole start and direction, every <=4-vertex line with repeated points, Multi* with empty members, mixed-dimension and nested collections under every member rotation, the holes family) and its exact and general-position affine images: Area, SignedArea, Length and Centroid are compared with exact rational shoelace areas and first moments and 200-bit square-root sums (tolerance 1e-9 relative to the magnitude, squared for area), and 20 relations are checked on each (Reverse negates signed area, ForceCW/CCW, Z/M, member order, additivity over members, translation invariance/equivariance, WithTransform = TransformXY for 5 maps).",
+   "Trust: checks/c14.go:exactMeasures on exact/ rationals and math/big floats.",
+   "bounded-exhaustive input enumeration on the real code against exact rational measures", "4/C14"),
 }
 
 PENDING = {}
